@@ -18,8 +18,9 @@
 (*        otherwise the request goes on (cache_miss).                                        *)
 (*   RecordLimit       a response larger than record_max_size_bytes is never served.          *)
 (*   SizeBound         what the cache demonstrably holds at one time fits max_cache_size_mb.  *)
-(*   Serve             a response that was certainly stored (small enough for every limit    *)
-(*        under any reasonable way of measuring a record) is served to a request with the    *)
+(*   Serve             a successful (2xx) response that was certainly stored (small enough    *)
+(*        for every limit under any reasonable way of measuring a record; error responses     *)
+(*        need not be kept) is served to a request with the                                   *)
 (*        same complete key while it is certainly fresh (one second of slack: ttl_seconds     *)
 (*        has the granularity of seconds).  This is what makes the two processors a cache;   *)
 (*        the documentation promises no more, so everything else (which of several stored    *)
@@ -70,7 +71,8 @@ Fresh(c) == now - c.born <= Ttl * 1000
 SurelyFresh(c) == now - c.born + 1000 <= Ttl * 1000
 Storable(c) == RecMax = -1 \/ c.sz <= RecMax
 \* stored for sure when it arrived, and the cache cannot have been full since (whatever its eviction policy)
-SurelyStored(c) == (RecMax = -1 \/ c.over <= RecMax) /\ cum <= MaxMb * MiB
+\* (only successful responses: a cache that does not keep error responses is a cache)
+SurelyStored(c) == (RecMax = -1 \/ c.over <= RecMax) /\ cum <= MaxMb * MiB /\ c.st >= 200 /\ c.st <= 299
 
 Miss == [kind |-> "miss"]
 Matches(k, out) == {c \in cands : Same(c.k, k) /\ Fresh(c) /\ Storable(c)
